@@ -340,6 +340,8 @@ class Analyzer:
         self.site_nottag = {}       # callee id -> list of per-call-site {arg index: excluded variants}
         self.entry_bounds = {}      # closure id -> {param path: (lo, hi)}   numeric range of a by-value parameter at its only call site(s)
         self.site_bounds = {}       # closure id -> list of per-call-site {param path: (lo, hi)}
+        self.site_facts = {}        # closure id -> list of per-call-site (facts, sum triples) over the closure's own variables (L2 = item, L1.k = k-th capture)
+        self.entry_facts = {}       # closure id -> (facts, sum triples) assumed at its entry
         self.summaries = summaries if summaries is not None else {}
         self.axioms = axioms or []
         self.refcache = {}
@@ -405,6 +407,89 @@ class Analyzer:
             else:
                 base += "[??]"
         return base
+
+    def range_closure_site(self, fn, st, t, A, D, post, obligations):
+        op = t["args"][1]
+        if op.get("k") not in ("copy", "move") or "p" in op["pl"]:
+            return
+        one = df.defs_of(fn).single(op["pl"]["l"])
+        if one is None or one[0] != "stmt" or one[3]["rv"]["k"] != "agg" or one[3]["rv"].get("ak") != "closure":
+            return
+        cid = one[3]["rv"]["closure"]
+        cl = self.prog.fns.get(cid)
+        if cl is None or cl.arg_count != 2:
+            return
+        R = A[0]
+        tmp = st.copy()
+        I = ("v", "$item")
+        tmp.forget(I)
+        tmp.add(("v", R + ".start"), I, 0)
+        tmp.add(I, ("v", R + ".end"), -1)
+        self.bound_type(tmp, I, "usize")
+        caps = [self.cpath(fn, o["pl"], st) if o.get("k") in ("copy", "move") else None for o in one[3]["rv"]["ops"]]
+        # name the sums item + captured, so that what is known about end + captured carries over to them
+        for k, P in enumerate(caps):
+            if P and ("v", P) in tmp.vars():
+                K = ("v", P)
+                Kc = self.canon(tmp, (K, 0))
+                if Kc and Kc[0] != K and Kc[0] != Z and Kc[1] == 0:
+                    tmp.add_sum(("v", "$c%d" % k), I, Kc[0], 0)     # ties in with the sums the caller already knows (named by canonical operands)
+                tmp.add_sum(("v", "$t%d" % k), I, K, 0)
+        tmp.saturate_sums()
+        if tmp.dead:
+            return
+
+        def ren(v):
+            if v == Z:
+                return Z
+            if v == I:
+                return ("v", "L2")
+            if v[0] in ("v", "#"):
+                for k, P in enumerate(caps):
+                    if P and State.under(v[1], P):
+                        return (v[0], "L1.%d" % k + v[1][len(P):])
+                return None
+            return None
+        V = [v for v in tmp.vars() if ren(v) is not None]
+        triples = []
+        sren = {}
+        for (S, x, y, c) in tmp.sums:
+            rx, ry = ren(x), ren(y)
+            if rx is None or ry is None or rx == Z or ry == Z:
+                continue
+            if repr(ry) < repr(rx):
+                rx, ry = ry, rx
+            S2 = ("s", "%s|%s" % (show_var(rx), show_var(ry)))
+            sren[S] = S2
+            triples.append((S2, rx, ry, c))
+        allv = V + list(sren) + [Z]
+        rn = lambda v: sren[v] if v in sren else ren(v)
+        facts = []
+        for x in allv:
+            for y in allv:
+                if x == y:
+                    continue
+                c = tmp.get(x, y)
+                if c is not None:
+                    facts.append((rn(x), rn(y), c))
+        if obligations is not None:
+            self.site_facts.setdefault(cid, []).append((facts, triples))
+        # the item handed back by find / position-like combinators satisfies the same bounds relative to everything outside the range
+        if (callee_of(t).get("path") or "").endswith("Iterator::find") and t["dty"] == "core::option::Option<usize>":
+            pv = ("v", D + ".@Some.0")
+            rf = []
+            for y in list(tmp.vars()) + [Z]:
+                if y == I or (y != Z and y[0] in ("v", "#") and (State.under(y[1], R) or State.under(y[1], D) or y[1].startswith("$"))):
+                    continue
+                if y != Z and y[0] == "s":
+                    continue
+                c1, c2 = tmp.get(I, y), tmp.get(y, I)
+                if c1 is not None:
+                    rf.append((pv, y, c1))
+                if c2 is not None:
+                    rf.append((y, pv, c2))
+            if rf:
+                post.append(("optf", "Some", rf, R))
 
     def const_slice_len(self, fn, op, depth=0):
         """Number of elements when the operand is (a reference to) an array of constant length, possibly unsized into a slice."""
@@ -909,6 +994,11 @@ class Analyzer:
                 facts.append((Z, ("v", D + ".@Some.0"), -lo))
             post.append(("optf", "Some", facts, R))
             post.append(("range_next", R, lo))
+        elif q.split("::")[-1] in RANGE_CLOSURE_COMBINATORS and q.startswith("core::iter::traits::iterator::Iterator::") and nargs == 2 and A[0] and \
+                t["argtys"][0] in ("&mut core::ops::range::Range<usize>", "core::ops::range::Range<usize>"):
+            # (lo..hi).find(|&i| ..) and friends: the closure runs with lo <= i < hi, and whatever the caller knows about the values
+            # the closure captured still holds inside it; a found item is one of those i
+            self.range_closure_site(fn, st, t, A, D, post, obligations)
         elif name_is("ThreadPool::install") and nargs == 2 and A[1]:
             cl = None
             e = df.operand_expr(fn, t["args"][1])
@@ -1444,6 +1534,12 @@ class Analyzer:
                 st.add(Z, ("v", p), -lo)
             if hi is not None:
                 st.add(("v", p), Z, hi)
+        if fn.id in self.entry_facts:
+            facts, triples = self.entry_facts[fn.id]
+            for tr in triples:
+                st.sums.add(tr)
+            for x, y, c in facts:
+                st.add(x, y, c)
         return st
 
     def self_adt(self, fn):
@@ -1761,6 +1857,9 @@ class Analyzer:
                 st.optf[(np, variant)] = nf
         for p, tg in summ["tag"].items():
             st.tag[D + p[2:]] = tg
+
+
+RANGE_CLOSURE_COMBINATORS = ("find", "any", "all", "position", "for_each", "try_for_each", "find_map", "map", "filter", "take_while", "skip_while")
 
 
 def show_var(v):
